@@ -7,8 +7,11 @@ use crate::mapsut::*;
 use crate::report::{Config, Tier};
 
 fn pairs(pa: Plan, ua: u8, pb: Plan, ub: u8, alt: bool, tier: Tier) -> Box<dyn Config> {
+    let w = super::width();
+    let big: u8 = if w == 16 { 30 } else { 16 };
     let mk = |p: Plan, u: u8, alt: bool| {
-        let mut c = MapCfg::new(p, u);
+        let mut c = MapCfg::new(p, big);
+        c.ops_universe = Some(u);
         c.reduce = false; // which ids two maps share matters
         c.alphabet = Alphabet::core();
         c.max_buckets = 32;
@@ -16,7 +19,9 @@ fn pairs(pa: Plan, ua: u8, pb: Plan, ub: u8, alt: bool, tier: Tier) -> Box<dyn C
         c
     };
     let (ca, cb) = (mk(pa, ua, false), mk(pb, ub, alt));
-    let label = format!("pairs-{}-x-{}{}", ca.label(), cb.label(), if alt { "-althasher" } else { "" });
+    let label = format!("pairs-{}-ops{}-x-{}-ops{}{}", ca.label(), ua, cb.label(), ub, if alt { "-althasher" } else { "" });
+    // full-window, full-load and tombstone-saturated tables take part in every pair
+    let extra: Vec<Vec<MapOp>> = super::c01::seeds_for(w).into_iter().step_by(2).collect();
     Box::new(MapPairs {
         label,
         ha: MapHarness::new(ca),
@@ -24,6 +29,7 @@ fn pairs(pa: Plan, ua: u8, pb: Plan, ub: u8, alt: bool, tier: Tier) -> Box<dyn C
         limits: Limits { max_wall_s: if tier == Tier::Quick { 20.0 } else { 300.0 }, ..Default::default() },
         max_states: if tier == Tier::Quick { 1500 } else { 20000 },
         wall_cap: if tier == Tier::Quick { 40.0 } else { 1500.0 },
+        extra,
     })
 }
 
